@@ -215,8 +215,65 @@ def aggregation_differential(ctx, count):
                           broken="correspondence aggRow ↔ numpy max/mean/min/median")
 
 
+def default_threshold_part(ctx, count):
+    """a fresh model fitted with neither n_sensors nor threshold selects by the documented default ‖s‖_F / (2·r·c);
+    coefficient arrays are drawn so that some magnitudes lie just below and some above that value (a formula that is off
+    by a modest factor changes the selection)"""
+    rng = ctx.rng
+    for idx in range(count):
+        ncls = rng.choice([2, 3, 3, 4])
+        X, y = models.gen_classification(rng, n_classes=ncls, n_features=rng.randint(4, ctx.scale(8, 11)))
+        nf = X.shape[1]
+        basis = rng.choice(models.BASIS_KINDS)
+        nm = None if basis == "identity" else rng.randint(2, min(X.shape[0], nf))
+        probe = S.SHistory(basis, nm, None, None, X, y, [("fit", False)], None)
+        try:
+            pm, pout = S.run_real(probe)
+            r = pout[0][1].get("r")
+        except Exception:
+            continue
+        if not r:
+            continue
+        inject = None
+        for _ in range(60):
+            # sensor weights spanning several octaves (exactly representable)
+            s_ = np.array([[rng.randint(-8, 8) / 8 * 2.0 ** -rng.randint(0, 6) for _ in range(1 if ncls == 2 else ncls)] for _ in range(nf)], dtype=float)
+            if ncls == 2:
+                s_ = s_[:, 0]
+            mag = np.abs(s_) if s_.ndim == 1 else np.max(np.abs(s_), axis=1)
+            t = float(np.sqrt(np.sum(s_ ** 2))) / (2 * r * ncls)
+            if t > 0 and np.any((mag >= 0.55 * t) & (mag < 0.97 * t)) and np.any(mag > 1.03 * t):
+                inject = s_
+                break
+        if inject is None:
+            ctx.count("default_threshold:no_sensitive_array")
+            continue
+        h = S.SHistory(basis, nm, None, None, X, y, [("fit", rng.random() < 0.5)], inject)
+        ctx.evaluations += 1
+        ctx.count("default_threshold:" + ("binary" if ncls == 2 else "multi"))
+        try:
+            model, out = S.run_real(h)
+        except Exception as e:
+            raise C.HarnessError(f"history execution failed: {e!r}")
+        status, obs = out[0]
+        if status != "ok" or not obs.get("fitted"):
+            continue
+        want = S.default_selection(obs["coef"], obs.get("r"), obs.get("c"))
+        if want is None:
+            ctx.count("skipped_threshold_within_rounding_of_a_magnitude")
+            continue
+        if sorted(obs["sel"]) != want:
+            ctx.violation("concrete", f"default fit ({ncls} classes, {obs.get('r')} modes) selects {sorted(obs['sel'])}; sensors whose magnitude "
+                                      f"reaches ‖s‖_F/(2rc) are {want}",
+                          {"signature": "selection-law:default-threshold", "history": h.describe(), "observed": sorted(obs["sel"]), "required": want,
+                           "index": idx})
+        elif 0 < len(want) < nf:
+            ctx.nontriv(("default-threshold", basis, ncls, tuple(want)))
+
+
 def run(ctx: C.Ctx):
     rng = ctx.rng
+    default_threshold_part(ctx, ctx.scale(40, 500))
     todo = []
     for idx in range(ctx.scale(110, 1800)):
         h = gen_history(ctx, rng)
